@@ -217,6 +217,9 @@ func (c St) consume(recv *Expr) *Expr {
 		return MCall(recv, "indexWhere", lam("e", Bin(">=", e, Int(c.A))))
 	case "single":
 		return MCall(MCall(recv, "top", Int(1)), "single")
+	case "singleMany":
+		// single() on a list with more than one item fails: it is decided by the second item
+		return MCall(recv, "single")
 	case "contains":
 		return Bin("~", Int(c.A), MCall(recv, "map", lam("e", Bin("-", SCall("probe", e), Bin("%", e, Int(2))))))
 	case "containsAll":
@@ -279,6 +282,15 @@ func (c St) ideal(in iter, ahead bool) (ref.Value, bool) {
 		}
 		if ahead {
 			in() // top(1) sees its end with the second element
+		}
+		return ref.Int(v), true
+	case "singleMany":
+		v, ok := in()
+		if !ok {
+			return nil, false
+		}
+		if _, more := in(); more {
+			return nil, false // "more than one item": an error, decided by the second item
 		}
 		return ref.Int(v), true
 	case "contains":
@@ -511,7 +523,7 @@ func check(c Case) (string, info) {
 }
 
 var stageNames = []string{"accept", "skip", "top", "map", "combine", "number", "iir", "plus"}
-var consumers = []string{"first", "topSize", "topSum", "present", "indexWhere", "single", "contains", "containsAll", "multiUse"}
+var consumers = []string{"first", "topSize", "topSum", "present", "indexWhere", "single", "singleMany", "contains", "containsAll", "multiUse"}
 
 func TestPropC08(t *testing.T) {
 	defer evid.R.Flush()
